@@ -57,25 +57,28 @@ Theorem C02_vtt_hours_iff_nonzero : forall t, 0 <= rhe t < 86400000000 ->
 Proof. exact vtt_ts_hours_iff. Qed.
 Print Assumptions C02_vtt_hours_iff_nonzero.
 
-(* MicroDVD: the token is a decimal integer literal for floor(t*25/10^6); frame n covers [40000 n, 40000 (n+1)) *)
-Theorem C02_mdvd_frames_floor : forall t, (0 <= t)%Q -> ok_frames t (mdvd_token t) = true.
+(* MicroDVD: the token is a decimal integer literal for floor(t*25/10^6); frame n covers [40000 n, 40000 (n+1)).
+   _partial: the model computes the floor exactly; the writer's binary64 int(t*25.0/10**6) is not modelled (decided
+   by execution: every integer time of the generators, thorough sweep) - the theorem is about printing and parsing *)
+Theorem C02_mdvd_frames_floor_partial : forall t, (0 <= t)%Q -> ok_frames t (mdvd_token t) = true.
 Proof. exact mdvd_token_ok. Qed.
-Print Assumptions C02_mdvd_frames_floor.
+Print Assumptions C02_mdvd_frames_floor_partial.
 Theorem C02_mdvd_frames_int : forall z, 0 <= z ->
   parse_int (mdvd_token (inject_Z z)) = Some (z * 25 / 1000000) /\
   (z * 25 / 1000000) * 40000 <= z < (z * 25 / 1000000 + 1) * 40000.
 Proof. exact mdvd_frame_int. Qed.
 Print Assumptions C02_mdvd_frames_int.
 
-(* SAMI: start= is a decimal integer literal for floor(t/1000) *)
-Theorem C02_sami_start_integer : forall t, (0 <= t)%Q ->
+(* SAMI: start= is a decimal integer literal for floor(t/1000). _partial: the Python type of `t // 1000` (float for a
+   float t, the repaired defect) is invisible in Q; the theorem is about printing and parsing *)
+Theorem C02_sami_start_integer_partial : forall t, (0 <= t)%Q ->
   match parse_int (sami_token (sami_ms t)) with Some v => v = floor_ms t | None => False end.
 Proof. exact sami_token_ok. Qed.
-Print Assumptions C02_sami_start_integer.
+Print Assumptions C02_sami_start_integer_partial.
 
 (* SAMI sync rule, for ALL caption lists: a sync at each start ms; a blank sync at the end ms unless the next
    cue starts at that ms; nothing after the last cue; and the written syncs satisfy the oracle *)
-Theorem C02_sami_sync_rule : forall caps, sami_write caps = sami_spec caps 0.
+Theorem C02_sami_sync_rule : forall caps, map sev_obs (sami_write caps) = sami_rule caps.
 Proof. exact sami_sync_rule. Qed.
 Print Assumptions C02_sami_sync_rule.
 Theorem C02_sami_write_ok : forall caps, ok_sami_ms caps (map sev_obs (sami_write caps)) = true.
@@ -97,24 +100,39 @@ Theorem C02_merged_cues_are_runs : forall caps, nodes_nonempty caps = true ->
 Proof. exact merged_cues_are_runs. Qed.
 Print Assumptions C02_merged_cues_are_runs.
 
-(* cue structure of the per-caption writers, on the models: DFXP one <p> per caption, MicroDVD one line per
-   caption, WebVTT one cue per layout group (1 + the number of layout changes between text nodes), every cue
-   with its caption's times - each satisfying the document oracle ok_cues *)
-Theorem C02_dfxp_one_p_per_caption : forall caps, caps_time_ok caps = true ->
-  length (dfxp_tokens caps) = length caps /\ ok_cues WDfxp caps [] (dfxp_tokens caps) = true.
-Proof. exact dfxp_one_p_per_caption. Qed.
-Print Assumptions C02_dfxp_one_p_per_caption.
-Theorem C02_mdvd_one_line_per_caption : forall caps, caps_time_ok caps = true ->
-  length (mdvd_tokens caps) = length caps /\ ok_cues WMdvd caps [] (mdvd_tokens caps) = true.
-Proof. exact mdvd_one_line_per_caption. Qed.
-Print Assumptions C02_mdvd_one_line_per_caption.
+(* ---- THE WRITER MODELS MEET THE DOCUMENT ORACLE (cue structure + tokens), for every caption list in the domain ----
+   SRT: merge loop then [:12] stamps; accepted by "may merge" (ok_cues WSrt) *)
+Theorem C02_srt_model_meets_oracle : forall caps, caps_time_ok caps = true ->
+  ok_cues WSrt caps (map (fun c => (srt_ts (c_start c), srt_ts (c_end c))) (srt_merge caps)) = true.
+Proof. exact srt_model_meets_oracle. Qed.
+Print Assumptions C02_srt_model_meets_oracle.
+(* legacy / single-position DFXP: merge_concurrent_captions, then one <p> per merged caption *)
+Theorem C02_merged_model_meets_oracle : forall caps, caps_time_ok caps = true -> nodes_nonempty caps = true ->
+  exists l, merge_lang caps = Ok l /\ ok_cues WMerged caps (map (hms_tok 46) l) = true.
+Proof. exact merged_model_meets_oracle. Qed.
+Print Assumptions C02_merged_model_meets_oracle.
+(* DFXP one <p> per caption; MicroDVD one line per caption *)
+Theorem C02_dfxp_model_meets_oracle : forall caps, caps_time_ok caps = true -> ok_cues WDfxp caps (dfxp_tokens caps) = true.
+Proof. exact dfxp_model_meets_oracle. Qed.
+Print Assumptions C02_dfxp_model_meets_oracle.
+Theorem C02_mdvd_model_meets_oracle : forall caps, caps_time_ok caps = true -> ok_cues WMdvd caps (mdvd_tokens caps) = true.
+Proof. exact mdvd_model_meets_oracle. Qed.
+Print Assumptions C02_mdvd_model_meets_oracle.
+(* WebVTT: one cue per layout group of the grouping loop, all with the caption's times; accepted by "may split" *)
+Theorem C02_vtt_model_meets_oracle : forall caps : list (caption * list vnode), caps_time_ok (map fst caps) = true ->
+  forallb (fun cn => shows_something (snd cn)) caps = true ->
+  ok_cues WVtt (map fst caps) (vtt_tokens caps) = true.
+Proof. exact vtt_model_meets_oracle. Qed.
+Print Assumptions C02_vtt_model_meets_oracle.
+(* a description of the MODEL's grouping loop (not demanded by the statement, which says "may split"):
+   1 + the number of layout changes between text nodes *)
 Theorem C02_vtt_group_count : forall nodes, vtt_group_count nodes = spec_groups nodes.
 Proof. exact vtt_group_count_spec. Qed.
 Print Assumptions C02_vtt_group_count.
-Theorem C02_vtt_cues_same_times : forall caps : list (caption * list vnode), caps_time_ok (map fst caps) = true ->
-  ok_cues WVtt (map fst caps) (map (fun cn => spec_groups (snd cn)) caps) (vtt_tokens caps) = true.
-Proof. exact vtt_cues_same_times. Qed.
-Print Assumptions C02_vtt_cues_same_times.
+(* the accepted values of a time do not depend on the representation of the rational (2000000 and 2000000.0) *)
+Theorem C02_acc_ms_respects_equality : forall t t' v, (t == t')%Q -> acc_ms t v = acc_ms t' v.
+Proof. exact acc_ms_comp. Qed.
+Print Assumptions C02_acc_ms_respects_equality.
 
 (* on the SCC lattice (thirds of a microsecond) both admissible readings of "truncated" coincide *)
 Theorem C02_lattice_no_ms_crossing : forall k c, c = 100100 \/ c = 100000 ->
@@ -151,4 +169,34 @@ Proof. vm_compute. reflexivity. Qed.
 Example C02_ex_vtt_groups :
   vtt_group_count [VText (Some 1); VBreak; VText (Some 1); VBreak; VText (Some 2); VText None; VText (Some 3)] = 3%nat
   /\ vtt_group_count [VBreak; VText None; VStyle true; VText (Some 1)] = 1%nat.
+Proof. vm_compute. split; reflexivity. Qed.
+Example C02_ex_srt_oracle :
+  let c s e n := mkCap (inject_Z s) (inject_Z e) [n] in
+  let caps := [c 0 1000000 1; c 2000000 3000000 2; c 2000000 3000000 3; mkCap (4000000 # 2) (6000000 # 2) [4]] in
+  caps_time_ok caps = true /\
+  (* merged (the model), not merged, and partly merged outputs are all accepted; a wrong time is not *)
+  ok_cues WSrt caps [(lit "00:00:00,000", lit "00:00:01,000"); (lit "00:00:02,000", lit "00:00:03,000")] = true /\
+  ok_cues WSrt caps [(lit "00:00:00,000", lit "00:00:01,000"); (lit "00:00:02,000", lit "00:00:03,000");
+                     (lit "00:00:02,000", lit "00:00:03,000"); (lit "00:00:02,000", lit "00:00:03,000")] = true /\
+  ok_cues WSrt caps [(lit "00:00:00,000", lit "00:00:01,000"); (lit "00:00:02,000", lit "00:00:03,001")] = false.
+Proof. vm_compute. repeat split; reflexivity. Qed.
+Example C02_ex_merged_oracle :
+  let c s e n := mkCap (inject_Z s) (inject_Z e) [n] in
+  let caps := [c 0 1000000 1; c 0 1000000 2; c 5000000 6000000 3] in
+  caps_time_ok caps = true /\ nodes_nonempty caps = true /\
+  match merge_lang caps with Ok l => ok_cues WMerged caps (map (hms_tok 46) l) | Err _ => false end = true.
+Proof. vm_compute. repeat split; reflexivity. Qed.
+Example C02_ex_vtt_oracle :
+  let c := mkCap (inject_Z 1000000) (5004999999999999 # 1000000000) [1] in
+  caps_time_ok [c] = true /\
+  ok_cues WVtt [c] (vtt_tokens [(c, [VText (Some 1); VBreak; VText (Some 2)])]) = true /\
+  vtt_tokens [(c, [VText (Some 1); VBreak; VText (Some 2)])] = [(lit "00:01.000", lit "00:05.005"); (lit "00:01.000", lit "00:05.005")] /\
+  ok_cues WVtt [c] [(lit "00:01.000", lit "00:05.004")] = true /\ ok_cues WVtt [c] [] = false.
+Proof. vm_compute. repeat split; reflexivity. Qed.
+Example C02_ex_dfxp_mdvd_oracle :
+  let caps := [mkCap (inject_Z 8039999) (inject_Z 8040000) [1]; mkCap (1 # 3) (999999 # 2) [2]] in
+  caps_time_ok caps = true /\ dfxp_tokens caps = [(lit "00:00:08.039", lit "00:00:08.040"); (lit "00:00:00.000", lit "00:00:00.500")]
+  /\ mdvd_tokens caps = [(lit "200", lit "201"); (lit "0", lit "12")].
+Proof. vm_compute. repeat split; reflexivity. Qed.
+Example C02_ex_lattice : rhe ((7 * 100100) # 3) / 1000 = floor_ms ((7 * 100100) # 3) /\ rhe ((7 * 100100) # 3) = 233567.
 Proof. vm_compute. split; reflexivity. Qed.
